@@ -114,3 +114,117 @@ def run(ck, prog):
     _run_c15(ck, prog)
     centred_sums(ck, prog)
     ck.floor("E2f-centred", 2)
+
+
+# ------------------------------------------------------------------ AUC: labels are looked up through the argsort permutation
+_run_pre_perm = run
+
+
+def auc_permutation(ck, prog):
+    """After `label_idx = y_pred.quick_argsort_mut()` positions in the sorted score vector are not row numbers: a read of
+    y_true at a position of the sorted order (an index that also addresses the sorted scores) must go through label_idx."""
+    from sa.prov import Resolver, render
+    rule, inst = "E2-indirection", "AUC::get_score reads y_true at label_idx[position], never at a sorted position"
+    try:
+        b = prog.one(r"^metrics::auc::AUC::get_score$")
+    except AnchorError as e:
+        ck.violation(rule, inst, "AUC::get_score", "", expected="anchor exists", found=f"anchor vanished: {e}")
+        return
+    res = Resolver(b)
+    sorted_local = None
+    for bb, t in b.calls():
+        f = t.get("f")
+        if f and f["path"].endswith(("quick_argsort_mut", "quick_argsort")):
+            a = t["args"][0]
+            if a["k"] in ("move", "copy") and not a["p"]["pr"]:
+                sorted_local = b.mutref_of.get(a["p"]["l"])
+    if sorted_local is None:
+        ck.note(f"{inst}: no argsort of a local score copy in AUC::get_score (different ranking scheme): rule has no instance")
+        return
+    is_perm = lambda t: t[0] == "call" and t[1].endswith(("quick_argsort_mut", "quick_argsort"))
+
+    def locals_in(t, skip_perm):
+        out, seen, work = set(), set(), [t]
+        while work:
+            s = work.pop()
+            if not isinstance(s, tuple) or id(s) in seen:
+                continue
+            seen.add(id(s))
+            if s and isinstance(s[0], str):
+                if skip_perm and s[0] == "idx" and is_perm(s[1]):
+                    continue
+                if skip_perm and s[0] == "call" and s[1].endswith("Index::index") and s[2] and is_perm(s[2][0]):
+                    continue
+                if s[0] in ("phi", "local"):
+                    out.add(s[1])
+            work.extend(x for x in s[1:] if isinstance(x, tuple))
+        return out
+    pos = set()
+    for bb, t in b.calls():
+        f = t.get("f")
+        if f and f["path"].endswith(("Index::index", "IndexMut::index_mut")) and len(t["args"]) == 2:
+            base = res.operand(t["args"][0])
+            if base[0] == "phi" and base[1] == sorted_local:
+                pos |= locals_in(res.operand(t["args"][1]), False)
+    pos.discard(sorted_local)
+    n = 0
+    for bb, t in b.calls():
+        f = t.get("f")
+        if not (f and f["path"].endswith("BaseVector::get")) or len(t["args"]) != 2:
+            continue
+        base = res.operand(t["args"][0])
+        if not (base[0] == "arg" and base[1] == 2):
+            continue
+        n += 1
+        ix = res.operand(t["args"][1])
+        hit = locals_in(ix, True) & pos
+        if hit:
+            ck.violation(rule, inst, b.path, b.where(bb), ordinal=n,
+                         expected="y_true[label_idx[k]] for a position k of the sorted scores",
+                         found=f"y_true is read at `{render(ix)[:80]}`, a position of the sorted score vector (shares {sorted('_%d' % h for h in hit)} "
+                               f"with the indices of the sorted scores), without the label_idx look-up")
+        else:
+            ck.ok(rule, inst, b.path, b.where(bb), f"index {render(ix)[:80]}")
+    # reads inside closures: `positions.filter(|&k| y_true.get(k) == 1)` - the index is the closure's parameter, the
+    # positions are the receiver of the adaptor the closure is handed to
+    for cb in prog.closures_of.get(b.path, []):
+        cres = Resolver(cb)
+        reads = []
+        for bb, t in cb.calls():
+            f = t.get("f")
+            if f and f["path"].endswith("BaseVector::get") and len(t["args"]) == 2:
+                base, ix = cres.operand(t["args"][0]), cres.operand(t["args"][1])
+                if base == ("upvar", "y_true") or (base[0] == "upvar" and b.arg_count >= 2 and base[1] == b.local_name(2)):
+                    reads.append((bb, ix))
+        if not reads:
+            continue
+        tag = "closure:" + cb.path
+        for bb2, t2 in b.calls():
+            if not any(a["k"] in ("move", "copy") and res.operand(a)[:2] == ("agg", tag) for a in t2["args"]):
+                continue
+            recv = res.operand(t2["args"][0])
+            for (bb, ix) in reads:
+                n += 1
+                param = ix[0] == "arg" and ix[1] >= 2      # the parameter itself, not label_idx[parameter]
+                hit = locals_in(recv, True) & pos
+                if param and hit:
+                    ck.violation(rule, inst, cb.path, cb.where(bb), ordinal=n,
+                                 expected="y_true[label_idx[k]] for a position k of the sorted scores",
+                                 found=f"y_true is read at the closure parameter, which ranges over `{render(recv)[:80]}`: positions of the sorted "
+                                       f"score vector (shares {sorted('_%d' % h for h in hit)} with the indices of the sorted scores), without "
+                                       f"the label_idx look-up")
+                else:
+                    ck.ok(rule, inst, cb.path, cb.where(bb), f"closure read; adaptor receiver {render(recv)[:80]}")
+    if n == 0:
+        ck.note(f"{inst}: y_true is not read through BaseVector::get: no instance")
+
+
+def run(ck, prog):
+    _run_pre_perm(ck, prog)
+    auc_permutation(ck, prog)
+
+
+EXPLANATION += (" Permutation look-up (E2-indirection): in AUC::get_score every read of y_true whose index is a position of the "
+                "sorted score vector (shares a variable with the indices used on the argsorted copy) goes through label_idx; the first "
+                "counting pass over 0..n is order-independent and exempt.")
+TECHNIQUE += "; permutation-indirection provenance rule"
